@@ -144,4 +144,47 @@ def mrun (s : MSt) : List MOp → MSt
   | [] => s
   | op :: ops => mrun (mstep s op).st ops
 
+/-! ### index-level model of one chain fed through both paths (property C03 on mixed histories)
+
+`XSt` = the full-import database `St` (its `store` holds the blocks with bodies) plus the header store `hdrs` (every
+header present, with or without body).  Both paths share `td`, `canon` and the head header: a block batch runs the
+full-import model (`importChain`) on `full`; a header batch runs the header-chain model (`hImportChain`) on the
+projection `toH` and writes td / number index / head header back.  Nothing new is modelled: mixed histories only
+compose the two models over the shared fields (archive node, imports only). -/
+
+structure XSt where
+  full : St
+  hdrs : Map Blk
+
+def xinit (g : Blk) : XSt := ⟨init g true, upd (fun _ => none) g.id (some g)⟩
+
+/-- the header chain as `HeaderChain` sees it -/
+def toH (s : XSt) : HSt :=
+  { genesis := s.full.genesis, store := s.hdrs, td := s.full.td, canon := s.full.canon, hhead := s.full.hhead }
+
+/-- raise the ghost bound `top` over the heights of a batch (see `St.top`) -/
+def raiseTop (s : St) (chain : List Blk) : St :=
+  { s with top := chain.foldl (fun m b => max m b.number) s.top }
+
+/-- `InsertChain` on the shared database: the header of every stored block is present afterwards -/
+def xImportChain (s : XSt) (chain : List Blk) (coins : List (List Bool)) : XSt × Option Err × Nat :=
+  let r := importChain (raiseTop s.full chain) chain coins
+  (⟨r.1.st, fun k => match r.1.st.store k with
+      | some b => some b
+      | none => s.hdrs k⟩, r.1.err, r.2)
+
+/-- `InsertHeaderChain` on the shared database -/
+def xImportHeaders (s : XSt) (chain : List Blk) (coins : List Bool) : XSt × Option Err × Nat :=
+  let r := hImportChain (toH s) chain coins
+  let f := raiseTop s.full chain
+  (⟨{ f with td := r.1.st.td, canon := r.1.st.canon, hhead := r.1.st.hhead }, r.1.st.store⟩, r.1.err, r.2)
+
+def xstep (s : XSt) : MOp → XSt
+  | .blocks chain cs => (xImportChain s chain (cs.map fun c => [c.1])).1
+  | .headers chain coins => (xImportHeaders s chain coins).1
+
+def xrun (s : XSt) : List MOp → XSt
+  | [] => s
+  | op :: ops => xrun (xstep s op) ops
+
 end Aqv.Chain
